@@ -5,7 +5,8 @@ from .. import core
 from ..core import Script, Rng
 from . import b3sum_gen
 
-ARTEFACTS = []
+ARTEFACTS = ["G11-b3sum"]
+EXTRA_PROPS = [("B3.Props.C13T", "B3/Props/C13T.lean")]   # theorems about the code translated from the sources
 PROPS_MODULE = "B3.B3sum.Props12"
 PROPS_PATH = "B3/B3sum/Props12.lean"
 RULE = ("process-level runs of the real binary (root file = /repo/b3sum/src/main.rs, shim manifest) in a scratch directory: hashing cases "
